@@ -9,11 +9,11 @@ for d in seeded/C* seeded2/C* seeded3/A*; do
   id=$(basename $d)
   round=$(dirname $d)
   case $id in A*) id=$(python3 -c "import json;print(json.load(open('/verif/$d/meta.json'))['property'])");; esac
-  git -C /repo apply /verif/$d/patch.diff || { echo "$round $id patch-does-not-apply" >> $OUT.tmp; continue; }
+  git -C /repo apply /verif/$d/patch.diff || { echo "$round $(basename $d) patch-does-not-apply" >> $OUT.tmp; continue; }
   line=$(python3 tools/check.py $id 2>&1 | grep -E "^(OK|VIOLATION)" | tr '\n' ' ')
   git -C /repo checkout -- .
   git -C /repo clean -fdq -- src rsactor-derive 2>/dev/null
-  echo "$round $id $line" >> $OUT.tmp
+  echo "$round $(basename $d) $line" >> $OUT.tmp
 done
 python3 tools/extract_shape.py coq/Gen/Shape.v >/dev/null
 git -C /repo status --short | head -3
